@@ -3,7 +3,9 @@ package main
 import (
 	"bytes"
 	"fmt"
+	"math/big"
 
+	"github.com/nspcc-dev/neo-go/pkg/crypto/hash"
 	"github.com/nspcc-dev/neo-go/pkg/crypto/keys"
 	"github.com/nspcc-dev/neo-go/pkg/encoding/address"
 	"github.com/nspcc-dev/neo-go/pkg/encoding/base58"
@@ -14,6 +16,37 @@ import (
 )
 
 const b58alphabet = "123456789ABCDEFGHJKLMNPQRSTUVWXYZabcdefghijkmnopqrstuvwxyz"
+
+// rawB58 is a plain base58 encoder (big.Int based) used to craft strings whose decoded bytes the
+// harness controls completely (wrong checksum bytes, too short payloads).
+func rawB58(b []byte) string {
+	z := 0
+	for z < len(b) && b[z] == 0 {
+		z++
+	}
+	n := new(big.Int).SetBytes(b)
+	var out []byte
+	m := new(big.Int)
+	base := big.NewInt(58)
+	for n.Sign() > 0 {
+		n.DivMod(n, base, m)
+		out = append(out, b58alphabet[m.Int64()])
+	}
+	for i := 0; i < z; i++ {
+		out = append(out, '1')
+	}
+	for i, j := 0, len(out)-1; i < j; i, j = i+1, j-1 {
+		out[i], out[j] = out[j], out[i]
+	}
+	return string(out)
+}
+
+// badChecksum returns the Base58 text of payload‖checksum with one checksum byte altered.
+func badChecksum(r *prng.R, payload []byte) string {
+	full := append(append([]byte{}, payload...), hash.Checksum(payload)...)
+	full[len(full)-1-r.Intn(4)] ^= byte(1 << uint(r.Intn(8)))
+	return rawB58(full)
+}
 
 func genPayload(r *prng.R, maxLen int) []byte {
 	l := r.Intn(maxLen + 1)
@@ -140,11 +173,17 @@ func famBase58(c *ctx) {
 		lz++
 	}
 	c.o.Count(fmt.Sprintf("base58:leading-zeros=%d", min(lz, 4)))
-	switch r.Intn(3) {
+	switch r.Intn(5) {
 	case 0:
 		chkDec(c, mutateStr(r, s))
 	case 1:
 		chkDec(c, randB58(r))
+	case 2: // one wrong checksum byte (each of the four positions)
+		chkDec(c, badChecksum(r, b))
+		c.o.Count("base58:bad-checksum-byte")
+	case 3: // fewer than 5 bytes in all
+		chkDec(c, rawB58(r.Bytes(r.Intn(5))))
+		c.o.Count("base58:short-raw")
 	default:
 		// a short payload: valid base58, fewer than 5 bytes or bad checksum
 		chkDec(c, mutateStr(r, mutateStr(r, s)))
@@ -210,7 +249,11 @@ func famAddress(c *ctx) {
 		p := append([]byte{byte(r.Intn(256))}, u.BytesBE()...)
 		addrDec(c, base58.CheckEncode(p))
 	case 2:
-		addrDec(c, mutateStr(r, s))
+		if r.Bool() {
+			addrDec(c, mutateStr(r, s))
+		} else {
+			addrDec(c, badChecksum(r, append([]byte{address.Prefix}, u.BytesBE()...)))
+		}
 	default:
 		addrDec(c, randB58(r))
 	}
@@ -244,6 +287,15 @@ func wifDec(c *ctx, s string, ver byte) (key []byte, comp bool, okk bool) {
 	c.line(fmt.Sprintf("wif_dec %s %d", hs(s), ver), obs)
 	if obs == "panic" {
 		c.fail("wif-decode-panic", "WIFDecode(%q) panicked", s)
+	}
+	if okk {
+		// partial inverse: a string that decodes re-encodes to itself
+		if re, err := keys.WIFEncode(key, ver, comp); err != nil || re != s {
+			c.fail("wif-decode-reencode", "WIFDecode(%q, %d) = %x compressed=%v re-encodes to %q err=%v", s, ver, key, comp, re, err)
+		}
+		c.o.Count("wif:decode-ok")
+	} else {
+		c.o.Count("wif:decode-err")
 	}
 	return
 }
@@ -285,9 +337,13 @@ func famWIF(c *ctx) {
 			if v == 0 {
 				v = keys.WIFVersion
 			}
-			p := append([]byte{v}, r.Bytes(r.Range(30, 35))...)
-			if r.Bool() && len(p) >= 34 {
-				p[33] = 1
+			l := 33
+			if r.Chance(1, 3) {
+				l = r.Range(30, 35)
+			}
+			p := append([]byte{v}, r.Bytes(l)...)
+			if len(p) >= 34 { // the compression flag byte: right, or one of the near misses
+				p[33] = []byte{1, 1, 0, 2, 0xff, 0x81}[r.Intn(6)]
 			}
 			wifDec(c, base58.CheckEncode(p), ver)
 		}
